@@ -87,6 +87,14 @@ Definition run_C05 (op : bytes) (input : arg) : arg :=
     let L := lib_of (arg_list (arg_nth 3 input)) in
     obs_result arg_of_info
       (inspect_file L pem_blocks_of (sniff_rows rows) (parse_rows rows) name data)
+  else if bytes_eqb op (bs "insplim") then
+    (* the same with MaxReadSize lowered to the eighth element: the dispatcher sees what was read *)
+    let name := arg_bytes (arg_nth 0 input) in
+    let data := arg_bytes (arg_nth 1 input) in
+    let rows := arg_list (arg_nth 2 input) in
+    let L := lib_of (arg_list (arg_nth 3 input)) in
+    obs_result arg_of_info
+      (inspect_read L pem_blocks_of (sniff_rows rows) (parse_rows rows) (arg_N (arg_nth 7 input)) name data)
   else if bytes_eqb op (bs "cli") then
     (* what the three invocations print, given the tree that Inspect returns for this content *)
     let path := arg_bytes (arg_nth 0 input) in
@@ -96,15 +104,28 @@ Definition run_C05 (op : bytes) (input : arg) : arg :=
 
 (* ---- the property itself, on what the implementation printed; independent of the model:
    every presentation of an object must be described exactly as its raw DER is ---- *)
+(* [insp]: a file inspected as it is; [insplim]: with the read limit lowered to at least the size of
+   the file (the harness takes longer files out of scope): every byte is read in both, so the
+   description must be that of the raw DER whatever the size of the object and of the file; and an
+   ASN.1 object always has a description (one DER value is at least "ASN.1 data") *)
 Definition check_C05 (op : bytes) (input impl : arg) : arg :=
-  if bytes_eqb op (bs "insp") then
+  if bytes_eqb op (bs "insp") || bytes_eqb op (bs "insplim") then
     if arg_bool (arg_nth 6 input) then
       match arg_nth 5 input with
       | AL [AZ 0%Z; r] =>
           match impl with
           | AL [AZ 0%Z; i] =>
-              if arg_eqb i r then AL []
-              else AS "this presentation of the object is described differently from its raw DER"
+              if arg_eqb i r then
+                match arg_bytes (arg_nth 0 r) with
+                | [] => AS "the object gets no description at all, neither as raw DER nor in this presentation"
+                | _ => AL []
+                end
+              else
+                match arg_bytes (arg_nth 0 i), arg_bytes (arg_nth 0 r) with
+                | [], _ => AS "this presentation of the object gets no description at all although its raw DER is described"
+                | _, [] => AS "this presentation of the object is described although its raw DER gets no description at all"
+                | _, _ => AS "this presentation of the object is described differently from its raw DER"
+                end
           | _ => AS "inspection of this presentation failed (error or panic)"
           end
       | _ => AS "inspection of the raw DER failed (error or panic)"
